@@ -90,3 +90,11 @@ Theorem C16_merge_within_refuted :
     overlapping env e 4 = [mkI (Some 3) (Some 5) (Rich 2)].
 Proof. exact Overlap2.C16_merge_within_refuted. Qed.
 Print Assumptions C16_merge_within_refuted.
+
+(* ---- tie C: the overlapping() methods as the code has them ---- *)
+From CG Require Import Gen.Source Proofs.GenEq9.
+Example C16_source_complement_overlapping_is_model : _ := g_compl_overlapping_is_model.
+Example C16_source_difference_overlapping_is_model : _ := g_diff_overlapping_is_model.
+Example C16_source_base_overlapping_is_model : _ := g_base_overlapping_is_model.
+Print Assumptions C16_source_complement_overlapping_is_model.
+Print Assumptions C16_source_difference_overlapping_is_model.
